@@ -25,8 +25,13 @@ func TestWorker(t *testing.T) {
 	kernel.WorkerMain(t, &kernel.Check{
 		ID:     "C17",
 		Bubble: true,
-		Setup:  func() { syncutil.SimHook = kernel.HookSite },
-		Run:    run,
+		Setup: func() {
+			syncutil.SimHook = kernel.HookSite
+			if overlayHooks != nil {
+				overlayHooks()
+			}
+		},
+		Run: run,
 	})
 }
 
@@ -635,3 +640,7 @@ func runSema(rc *kernel.RunCtx, k *kernel.Kernel, misuse bool) {
 	k.Finish()
 	rc.Adopt(k)
 }
+
+// overlayHooks is set by autoyield_test.go when the check is built with the
+// statement-level yield overlay.
+var overlayHooks func()
